@@ -477,9 +477,13 @@ def readerDelta (regions : List (List (Int × Int × Int))) (subs : List (Option
     | .ok v => some v
     | .err => none
 
-def SubIn.reader : SubIn → Option (Option Tent.SubTable)
-  | .null => some none
-  | .ok st => some (some st)
-  | .bad => none
+/-- the original array as the reader sees it (`none` = NULL offset; an unreadable entry never
+reaches a successful subset) -/
+def SubIn.toReader : SubIn → Option Tent.SubTable
+  | .ok st => some st
+  | _ => none
+
+def MapIn.triple (m : MapIn) : Nat × Nat × List Nat := (m.entryFormat, m.mapCount, m.data)
+def MapOut.triple (m : MapOut) : Nat × Nat × List Nat := (m.entryFormat, m.mapCount, m.data)
 
 end FontVerif.SubsetHvar
